@@ -1,6 +1,7 @@
 import SC.Properties.C10
 import SC.Proofs.SrcIndexByte
 import SC.Proofs.SrcIndexByteB
+import SC.Proofs.SrcIndexRune2
 /-!
 # C10 — source-level theorems
 
@@ -30,4 +31,15 @@ theorem source_indexByte_bytcase (s : Bytes) (root off : Nat) (c : UInt8) (h : G
     GoSsa.Ret Gen.Src.byt true Gen.Src.byt_indexByte [.str s root off, .int c.toNat] h
       [.int (A.indexByte (GoSsa.cfg true) s c).1, .int (A.indexByte (GoSsa.cfg true) s c).2] h :=
   GoSsa.Byt.indexByte s root off c h hls hCore
+/-- **Source level**: `indexRune2` — how `IndexRune` searches a code point whose orbit is an upper/lower pair — on the program text of
+    `strcase.go`, relative to `indexRuneCase`: for valid `lower`, `upper` it returns the algorithm model's `A.indexRune2` (offset and width
+    of the first occurrence of either), every string shorter than 2^62 bytes -/
+theorem source_indexRune2 (s : Bytes) (root off : Nat) (lower upper : Nat) (hvl : validRune lower) (hvu : validRune upper) (h : GoSsa.Heap)
+    (hls : s.length < 4611686018427387904)
+    (hCore : ∀ (s' : Bytes) (r : Int), ∃ N, ∀ fuel, N ≤ fuel →
+      GoSsa.run Gen.Src.str false fuel (GoSsa.Frame.entry Gen.Src.str_indexRuneCase [.str s' root off, .int r]) h =
+        .ok [.int (A.indexRuneCase (GoSsa.cfg false) s' r)] h) :
+    GoSsa.Ret Gen.Src.str false Gen.Src.str_indexRune2 [.str s root off, .int lower, .int upper] h
+      [.int (A.indexRune2 (GoSsa.cfg false) s lower upper).1, .int (A.indexRune2 (GoSsa.cfg false) s lower upper).2] h :=
+  GoSsa.Str.indexRune2 s root off lower upper hvl hvu h hls hCore
 end C10
